@@ -453,6 +453,23 @@ def gen_pair(rng, quirks=False, force=None):
     emit_embeds(sembs, "src", src_decls, sroot)
     emit_embeds(dembs, "dst", dst_decls, droot)
 
+    # the tag map is PER TYPE: an earlier type's `X map:"Y"` must not rename the untagged field X of a later type of the
+    # same invocation (-type=Inner,Order); both orders, the later/earlier destination sometimes also has a field Y
+    if inner and len(names) >= 2 and rng.random() < 0.45:
+        xn, yn = names.pop()[0], names.pop()[0]
+        isn0, idn0 = inner[0]
+        isf = [d for d in src_decls if d["name"] == isn0][0]["fields"]
+        idf = [d for d in dst_decls if d["name"] == idn0][0]["fields"]
+        tagged_first = rng.random() < 0.7
+        (t_s, t_d), (u_s, u_d) = ((isf, idf), (sroot, droot)) if tagged_first else ((sroot, droot), (isf, idf))
+        t_s.append(mk_field(xn, B("string"), yn))
+        t_d.append(mk_field(yn, B("string")))
+        u_s.append(mk_field(xn, B("int")))
+        u_d.append(mk_field(xn, B("int")))
+        if rng.random() < 0.6:
+            u_d.append(mk_field(yn, B("int")))
+        feats.add("name:shared_across_jobs:%s" % ("tag_first" if tagged_first else "tag_last"))
+
     rs = "Order"
     rd = rs if rng.random() < 0.7 else "OrderDTO"
     if mapper:
@@ -1318,6 +1335,14 @@ def corpus():
     node_s = st("T", [_f("Val", B("int")), _f("Next", P(N("src", "T"))), _f("Kids", ["slice", P(N("src", "T"))])])
     node_d = st("T", [_f("Val", B("int64")), _f("Next", P(N("dst", "T"))), _f("Kids", ["slice", P(N("dst", "T"))])])
     res.append(_spec([node_s], [node_d], [_job("T", "T")]))
+    # 18. per-type state: ONE invocation over two types; the earlier type renames Title by a tag, the later type has an
+    #     untagged Title (and its destination also a Headline): the later Title must be copied to Title
+    res.append(_spec(
+        [st("Article", [_f("Title", B("string"), "Headline"), _f("ID", B("int"))]),
+         st("T", [_f("Title", B("string")), _f("ID", B("int")), _f("Body", B("string"))])],
+        [st("Article", [_f("Headline", B("string")), _f("ID", B("int"))]),
+         st("T", [_f("Title", B("string")), _f("Headline", B("string")), _f("ID", B("int")), _f("Body", B("string"))])],
+        [_job("Article", "Article"), _job("T", "T")]))
     return res
 
 
